@@ -73,16 +73,42 @@ def worker(case, led):
             states.append(("bell-pairs(degenerate singular values)", Mps.from_dense(model, dv)))
         except Exception as e:
             led.error("degenerate_state", e)
+    # operators and density operators: the same contract on the operator-Schmidt spectra (site index pairs (up, down) grouped per site)
+    try:
+        from renormalizer.mps import MpDm, Mpo
+        from vk.specs import dyn as Dn
+        if states:
+            rho = MpDm.from_mps(states[0][1])
+            terms = Dn.hamiltonian(name, n, np.random.default_rng([seed, n, 78]))[1]
+            Hop = Mpo(model, terms)
+            states.append(("density operator |a><a|", rho))
+            states.append(("H rho (density operator)", Hop.apply(rho)))
+            # (plain operators are outside the property, which speaks about states: Mpo.compress keeps the singular values in the tensor it leaves behind
+            #  - `_update_ms`, operator branch - so later cuts are not taken in a canonical gauge and the sandwich does not apply; seen while building this)
+    except Exception as e:
+        led.error("operator objects", e)
+    n_sites = n
+
+    def vec_and_dims(obj):
+        d = S.dense(obj)
+        if d.ndim == 2 and d.shape[0] == d.shape[1] and np.asarray(obj[0].array).ndim == 4:
+            t = d.reshape(dims + dims).transpose([x for i in range(n_sites) for x in (i, n_sites + i)])
+            return t.reshape(-1), [x * x for x in dims]
+        return d, dims
     fn = "MatrixProduct.compress"
     for label, st0 in states:
         for direction in ("left", "right"):
             base = st0.copy()
             base = base.ensure_left_canonical() if direction == "left" else base.ensure_right_canonical()
-            v0 = S.dense(base)
+            if getattr(base, "is_mpo", False):
+                # operators: ensure_*_canonical trusts the centre/direction flags (check_*_canonical is not meaningful for the operator convention, in which the
+                # norm travels with the isometries); the library itself always calls canonicalise() explicitly before compressing an operator - so does the harness
+                base.canonicalise().canonicalise()
+            v0, dims_v = vec_and_dims(base)
             nrm0 = float(np.linalg.norm(v0))
             if nrm0 == 0:
                 continue
-            spectra = cut_spectra(v0, dims)
+            spectra = cut_spectra(v0, dims_v)
             bd0 = list(base.bond_dims)
             configs = [("fixed", dict(M=M)) for M in (1, 2, 3)] + [("fixed", dict(M=64))]
             if n >= 3:
@@ -102,7 +128,7 @@ def worker(case, led):
                 except Exception as e:
                     led.check(False, f"post:{fn}:total", fn, f"compress raised {type(e).__name__}: {e}", key, fields, rep)
                     continue
-                vc = S.dense(out)
+                vc = vec_and_dims(out)[0]
                 bd = list(out.bond_dims)
                 nontriv = any(b < b0 for b, b0 in zip(bd, bd0))
                 # --- bond limit
